@@ -21,7 +21,9 @@ class Annotation:
         self.introns = {}
         for g in range(n_genes):
             # ids that look like statistics lines: leading underscore(s) (legal gene / transcript ids)
-            pre = rng.choice(["_", "_", "__", "__x."]) if (weird_ids and rng.random() < 0.3) else ""
+            # ... and a leading '#': such an id sorts before letters and digits, so its row is the FIRST of its
+            # per-chromosome file - the place where a header test by content would take it for a header line
+            pre = rng.choice(["_", "_", "__", "__x.", "#", "#", "##", "#feature_id"]) if (weird_ids and rng.random() < 0.3) else ""
             gid = "%s%sG%03d" % (pre, chrom, g)
             txs = []
             for t in range(rng.randint(1, max_tx)):
@@ -193,6 +195,16 @@ def forward_counts_case(rng, consistent=True):
         cnt[r] = len(ms)
         for m in ms:
             tr.setdefault(m, []).append(r)
+    # a read id with several alignment records under ONE model (two primary records with one name inside the locus):
+    # save_assigned_read lists the read once per record and counts every record
+    if models and reads and rng.random() < 0.35:
+        for r in rng.sample(reads, min(rng.randint(1, 2), len(reads))):
+            own = [m for m in tr if r in tr[m]]
+            if own:
+                m = rng.choice(own)
+                extra = rng.randint(1, 2)
+                tr[m].extend([r] * extra)
+                cnt[r] += extra
     if not consistent:
         for r in rng.sample(reads, min(2, len(reads))):
             cnt[r] = rng.randint(0, 3)
@@ -211,12 +223,15 @@ def forward_counts_case(rng, consistent=True):
 # ------------------------------------------------------------------------------------------------
 # synthetic genome / annotation / reads for the pipeline oracle
 
-def c02_dataset(seed, tie=False, underscore=False, n_chroms=3):
+def c02_dataset(seed, tie=False, underscore=False, n_chroms=3, hash_id=False, dup=False):
     """multi-chromosome data set with every assignment class the count tables distinguish:
     unique full-length and truncated reads, reads compatible with two isoforms (ambiguous), exon-skipping /
     intron-retaining reads (inconsistent), reads with shifted ends, mono-exonic genes and unspliced reads, intergenic
     reads, unmapped reads, secondary alignments on a paralogous locus; optionally the multi-locus tie of
-    prototypes/multimap_tie_probe.py (`tie`) and a gene whose id starts with an underscore (`underscore`)."""
+    prototypes/multimap_tie_probe.py (`tie`), a gene whose id starts with an underscore (`underscore`), a gene whose id
+    (and transcript ids) start with '#' on the SECOND chromosome - the first row of a per-chromosome counts file that is
+    not the first file of the merge (`hash_id`), and a read NAME that occurs on two primary alignment records inside one
+    gene, both full matches of the same isoform with different ends (`dup`: forward_counts keys by read id)."""
     import random
     from gen import synth
     ds = synth.Dataset(seed)
@@ -244,6 +259,8 @@ def c02_dataset(seed, tie=False, underscore=False, n_chroms=3):
             gid = "G%d_%d" % (ci + 1, gi)
             if underscore and ci == 0 and gi == 0:
                 gid = "_" + gid
+            if hash_id and ci == 1 and gi == 0:
+                gid = "#" + gid
             skip = rng.randint(1, nex - 2)
             txs = [(gid + ".a", list(exons)), (gid + ".b", exons[:skip] + exons[skip + 1:])]
             ds.add_gene(chrom, gid, strand, txs)
@@ -324,6 +341,16 @@ def c02_dataset(seed, tie=False, underscore=False, n_chroms=3):
             e = list(t2[0][1])
             e = e[:1] + e[2:] if len(e) > 3 else e
             ds.read_from_exons(nm, c2, e, flag=256)
+    if dup:
+        # one read name on two primary records of one gene, both full splice matches of isoform .a, ends shifted
+        spl = [l for l in loci if l[4] is not None]
+        for (c0, g0, s0, t0, k0) in spl[:2]:
+            nm = name("dup_two_primaries")
+            for sh in (11, 17):
+                e = list(t0[0][1])
+                e[0] = (e[0][0] + sh, e[0][1])
+                e[-1] = (e[-1][0], e[-1][1] - sh + 4)
+                ds.read_from_exons(nm, c0, e)
     if tie:
         # inconsistent primary + two secondaries that each match one isoform exactly, on two other loci
         spl = [l for l in loci if l[4] is not None]
